@@ -351,6 +351,27 @@ pub fn ev_cmp(sh: &mut Shards, reuse: &mut FuzzyHashCompareTarget, x: &H, y: &H)
             rs.push(("short_unequal".into(), call_u32(|| xsn.compare_unequal(&ysn))));
         }
     }
+    // operands of a different width than the hash the target was made from (the target itself is
+    // untyped: it may hold a block hash 2 of up to 64 symbols while the operand's type allows 32)
+    if let Some(ys) = y.short_raw() {
+        let ysn: FuzzyHash = ys.normalize();
+        rs.push(("target_long_vs_short".into(), call_u32(|| FuzzyHashCompareTarget::from(&xn).compare(&ysn))));
+        rs.push(("target_long_vs_shortdual".into(), call_u32(|| FuzzyHashCompareTarget::from(&xn).compare(&DualFuzzyHash::from_raw_form(&ys)))));
+        cand.push(("cand_long_vs_short".into(), call_bool(|| FuzzyHashCompareTarget::from(&xn).is_comparison_candidate(&ysn))));
+        let tl = FuzzyHashCompareTarget::from(&xn);
+        if !tl.is_equiv(&ysn) {
+            rs.push(("unequal_long_vs_short".into(), call_u32(|| tl.compare_unequal(&ysn))));
+        }
+        if rel(x.k, y.k) == 0 {
+            rs.push(("near_eq_long_vs_short".into(), call_u32(|| tl.compare_near_eq(&ysn))));
+        }
+    }
+    if let Some(xs) = x.short_raw() {
+        let xsn: FuzzyHash = xs.normalize();
+        rs.push(("target_short_vs_long".into(), call_u32(|| FuzzyHashCompareTarget::from(&xsn).compare(&yn))));
+        rev.push(("target_long_vs_short".into(), call_u32(|| FuzzyHashCompareTarget::from(&yn).compare(&xsn))));
+        candrev.push(("cand_long_vs_short".into(), call_bool(|| FuzzyHashCompareTarget::from(&yn).is_comparison_candidate(&xsn))));
+    }
     // the relation-specific entry points, where their contracts hold
     let t = FuzzyHashCompareTarget::from(&xn);
     let equiv = t.is_equiv(&yn);
@@ -541,6 +562,17 @@ pub fn related_hash(rng: &mut Rng, x: &H, long: bool) -> H {
     H { k, a, b }
 }
 
+fn cap_runs3(v: &[u8]) -> Vec<u8> {
+    let mut o: Vec<u8> = vec![];
+    for &c in v {
+        let n = o.len();
+        if n >= 3 && o[n - 1] == c && o[n - 2] == c && o[n - 3] == c {
+            continue;
+        }
+        o.push(c);
+    }
+    o
+}
 /// C02 / C10 pairs at full scale
 pub fn drive_cmp(a: &Args, n_pairs: usize) {
     let mut sh = Shards::new(&a.out, "cmp_pairs", a.shards);
@@ -597,6 +629,37 @@ pub fn drive_cmp(a: &Args, n_pairs: usize) {
                         _ => (H { k, a: s.clone(), b: t.clone() }, H { k: k2 as u8, a: t.clone(), b: s.clone() }),
                     };
                     ev_cmp(&mut sh, &mut reuse, &x, &y);
+                }
+            }
+        }
+    }
+    // mixed widths, systematically: one hash with a block hash 2 of 33..64 symbols (long forms only),
+    // the other with at most 32 (fits the short forms) that is a slice of it -- at the start, across
+    // position 32, in the middle of the upper half and at the very end -- with a few edits; block
+    // hash 1 unrelated, so that block hash 2 decides.  ev_cmp runs every target/operand width mix.
+    for &ln in &[33usize, 40, 48, 63, 64] {
+        for &m in &[7usize, 12, 20, 32] {
+            for (si, start) in [0usize, 26usize.min(ln - m), (ln - m) / 2 + 16usize.min((ln - m) / 2), ln - m].into_iter().enumerate() {
+                sh.next_unit();
+                let k = [0u8, 3, 4, 17, 30][(ln + m + si) % 5];
+                let big = rand_bh(&mut rng, ln, &full, 3);
+                let mut small: Vec<u8> = big[start..start + m].to_vec();
+                if si % 2 == 1 && m > 8 {
+                    small.remove(m / 2);
+                    small.insert(1, (small[0] + 5) % 64);
+                }
+                let a1 = rand_bh(&mut rng, 20, &full, 3);
+                let a2 = rand_bh(&mut rng, 20, &full, 3);
+                let x = H { k, a: a1, b: big };
+                let y = H { k, a: a2, b: cap_runs3(&small) };
+                ev_cmp(&mut sh, &mut reuse, &x, &y);
+                ev_cmp(&mut sh, &mut reuse, &y, &x);
+                if k > 0 {
+                    // block hash 2 of the smaller block size against block hash 1 of the larger one
+                    let z = H { k: k - 1, a: rand_bh(&mut rng, 9, &full, 3), b: y.b.clone() };
+                    let w = H { k, a: x.b.clone(), b: vec![] };
+                    ev_cmp(&mut sh, &mut reuse, &w, &z);
+                    ev_cmp(&mut sh, &mut reuse, &z, &w);
                 }
             }
         }
